@@ -164,7 +164,8 @@ def _binary(lib, c):
     return [("LENF", lenf), ("SUBJ", lib.parameter_types.BinaryParameterType("SUBJ_T", lib.encodings.BinaryDataEncoding(**kw), unit=c["unit"]))]
 
 
-@subject("enumerated", [("enc", ["int-unsigned", "int-signed", "int-cal", "float", "string"]), ("unit", [None, "state"]), ("labels", ["abc", "neg"])])
+@subject("enumerated", [("enc", ["int-unsigned", "int-signed", "int-cal", "float", "string", "string-utf16-msb", "string-utf16-lsb", "string-utf32be"]),
+                        ("unit", [None, "state"]), ("labels", ["abc", "neg"])])
 def _enum(lib, c):
     e = c["enc"]
     if e.startswith("int"):
@@ -173,9 +174,16 @@ def _enum(lib, c):
     elif e == "float":
         enc = lib.encodings.FloatDataEncoding(32)
         enum = {0.0: "ZERO", 1.5: "ONEFIVE"} if c["labels"] == "abc" else {-2.0: "NEG", 1e3: "KILO"}
-    else:
+    elif e == "string":
         enc = lib.encodings.StringDataEncoding(encoding="UTF-8", fixed_raw_length=16)
         enum = {b"AB": "LABEL_AB", b"ok": "LABEL_OK"} if c["labels"] == "abc" else {b"\xc3\xa9": "E_ACUTE", b"--": "DASH"}
+    else:
+        # multi-byte character encodings: the keys are the label text encoded with the declared encoding NAME (what the loader does)
+        codec, order, bits = {"string-utf16-msb": ("UTF-16", "mostSignificantByteFirst", 48), "string-utf16-lsb": ("UTF-16", "leastSignificantByteFirst", 48),
+                              "string-utf32be": ("UTF-32BE", None, 64)}[e]
+        enc = lib.encodings.StringDataEncoding(encoding=codec, byte_order=order, fixed_raw_length=bits)
+        texts = {"ON": "LABEL_ON", "NO": "LABEL_NO"} if c["labels"] == "abc" else {"\u00e9x": "E_ACUTE", "--": "DASH"}
+        enum = {bytes(k, encoding=codec): v for k, v in texts.items()}
     return [("SUBJ", lib.parameter_types.EnumeratedParameterType("SUBJ_T", enc, enumeration=dict(enum), unit=c["unit"]))]
 
 
